@@ -69,7 +69,12 @@ func (in *Interp) uriValid(s *Str, requestURI bool) *Term {
 		// a bare opaque token: url.Parse accepts it, ParseRequestURI does not (no scheme, no leading slash) - as in the native replay
 		return Bool(!requestURI)
 	}
-	panic(engineErr("URI validity of symbolic string %s is outside the encoding", s.Key()))
+	// byte-precise symbolic text: net/url's verdict is an uninterpreted (but consistent) predicate of the string
+	in.summUsed["assumption: URI validity of symbolic text is an uninterpreted predicate"] = true
+	if requestURI {
+		return in.freshBool("requri:" + s.Key())
+	}
+	return in.freshBool("uri:" + s.Key())
 }
 
 func init() {
